@@ -9,6 +9,8 @@
                    cannot see (SetRange!Unstrippable: time on the right of the comparison,
                    or spelled Time / TIME): the named deviations of the current tree.  With
                    FixedStrip = TRUE (the proposed repair) there is no exemption.
+     PlainHolds    after each call the plain boolean reading of the condition selects the same set -
+                   unless ParenTopOr = FALSE and the initial condition is a bare top-level OR
      NoGrowthInv   from the second call on the condition does not grow
      PrintFaithfulInv  printing the condition and parsing it back keeps its plain boolean reading
      NTAgree       the two readings of "non-time part" (tree / AST) agree on the initial condition
@@ -33,8 +35,17 @@ Win(i) == CASE i = 1 -> [s |-> I(1, 0), e |-> I(2, 0)]
             [] i = 5 -> [s |-> I(2, 1), e |-> I(3, -1)]
 
 NoTree == [n |-> "none"]
-TopOrs == {[a |-> "or", l |-> Tag("t1", "=", "x"), r |-> Tag("t2", "=", "y"), par |-> FALSE],
-           [a |-> "or", l |-> Tag("t1", "!=", "x"), r |-> Fld(">", 1), par |-> FALSE]}
+\* bare top-level OR conditions (no parentheses around the OR): `a OR b`, `a OR b OR c`, `a OR b AND c`,
+\* `a AND b OR c`, with tag and field predicates
+TA == Leaf(Tag("t1", "=", "x"))
+TB == Leaf(Tag("t2", "=", "y"))
+TC == Leaf(Fld(">", 1))
+TD == Leaf(Tag("t1", "!=", "x"))
+TopOrs == {Leaf([a |-> "or", l |-> Tag("t1", "=", "x"), r |-> Tag("t2", "=", "y"), par |-> FALSE]),
+           Leaf([a |-> "or", l |-> Tag("t1", "!=", "x"), r |-> Fld(">", 1), par |-> FALSE]),
+           OrT(TA, TB), OrT(OrT(TA, TB), TC), OrT(TA, And(TB, TC)), OrT(And(TD, TB), TC),
+           OrT(Leaf(Fld("=", 1)), And(Leaf(Tag("t2", "=", "y")), Leaf(Tag("t1", "=", "y")))),
+           OrT(TD, Par(And(TB, TC)))}
 
 Emit(c, ws) == CSVWrite("%1$s", <<ToJson([c |-> c, toks |-> Toks(c), wins |-> ws,
                                           na |-> Len(AtomsOf(c)), nt |-> Len(TimeAtomsOf(c))])>>, CaseFile)
@@ -50,7 +61,7 @@ Begin(c) == /\ init' = c /\ cond' = Lower(c) /\ phase' = "run"
             /\ UNCHANGED <<atoms, wins, prevNT, prevSize>>
 Start == /\ phase = "build"
          /\ \/ Len(atoms) >= MinAtoms /\ \E c \in Conds(atoms) : Begin(c)
-            \/ TopOr /\ atoms = <<>> /\ \E o \in TopOrs : Begin(Leaf(o))
+            \/ TopOr /\ atoms = <<>> /\ \E c \in TopOrs : Begin(c)
 
 SetTimeRange == /\ phase = "run" /\ Len(wins) < MaxCalls
         /\ \E i \in WinIds :
@@ -69,6 +80,13 @@ Called == phase = "run" /\ Len(wins) >= 1
 StepHoldsNow == LET o == Observe(cond) IN
                 o.err = "" /\ StepOK(o.lo, o.hi, o.rt, wins[Len(wins)], prevNT, HistGrid(init, wins))
 StepHolds == Called => (StepHoldsNow \/ (~FixedStrip /\ Unstrippable(init)))
+\* the plain boolean reading of the condition selects what the property says - unless the code still joins
+\* a bare top-level OR without parentheses (ParenTopOr = FALSE) or cannot see a time bound (FixedStrip = FALSE)
+PlainHoldsNow == PlainOKAst(cond, wins[Len(wins)], prevNT, HistGrid(init, wins))
+PlainHolds == Called => (PlainHoldsNow \/ (~ParenTopOr /\ RootIsOr(init)) \/ (~FixedStrip /\ Unstrippable(init)))
+\* the same with no exemption: violated by the design with ParenTopOr = FALSE (the check runs that once and
+\* requires the counterexample, so the model is known to exhibit the old defect)
+PlainHoldsStrict == Called => PlainHoldsNow
 NoGrowthInv == (Called /\ Len(wins) >= 2) => NoGrowth(prevSize, Size(cond))
 \* the condition the statement holds prints to a text that denotes the same predicate (plain boolean
 \* reading) - before the first call and after every call
